@@ -255,7 +255,7 @@ func TestC17_DiscoveryDense(t *testing.T) {
 		c := nlhist.Case{Files: free.Files}
 		f := rapid.IntRange(0, 1).Draw(t, "f")
 		backbone := []nlhist.Op{
-			{K: "fetch", F: f, Arg: rapid.SampledFrom([]int{0, 0, 0, 1}).Draw(t, "mask")},
+			{K: "fetch", F: f, Arg: rapid.SampledFrom([]int{0, 0, 1, 2, 6}).Draw(t, "mask")}, {K: "touch", F: f},
 			{K: "discover", F: f}, {K: "fetch", F: f}, {K: "restart"}, {K: "delete", F: f}, {K: "restart"}}
 		rest := free.Ops
 		for _, b := range backbone {
